@@ -1,9 +1,14 @@
 (* IdleP.v — C12, the two-endpoint composition (Model/TimedNet.v): an established idle pair over a
-   network that shows every datagram to the peer within d, both sides ticking at least every tau,
-   never times out, and each side emits a KEEP_ALIVE at least every max(K, send interval) + tau.
+   network that shows every datagram to the peer within d (further copies within `life`), both
+   sides ticking at least every tau, never times out, and each side emits a KEEP_ALIVE at least
+   every max(K, send interval) + tau.
    Part 1: what one update() / one received datagram does to an idle endpoint.
-   Part 2: the window accepts the first copy of every datagram (SeqNumP.R over true indices).
-   Part 3: the joint invariant and its induction over timed histories. *)
+   Part 2: the receive window over true datagram numbers (SeqNumP.R): a datagram is refused only if
+           a copy of it was accepted before.
+   Part 3: one direction of the wire: the ghost log of emissions, which of them are still unseen,
+           and the three ways it evolves (time passes / the sender ticks / the receiver is offered
+           something); the liveness-clock bound.
+   Part 4: the joint invariant, its induction over timed histories, the theorems. *)
 From Coq Require Import Lia ZifyBool.
 From RecordUpdate Require Import RecordUpdate.
 From Model Require Import Base SeqNum Wire Conn Client Net TimedNet.
@@ -392,13 +397,14 @@ Lemma last_snoc {A} (l : list A) (x d : A) : last (l ++ [x]) d = x.
 Proof. apply last_last. Qed.
 
 Section Direction.
-  (* k: session key; M: keep-alive period of the sender X; tau, d: the network parameters;
+  (* k: session key; M: keep-alive period of the sender X; tau, d, life: the network parameters;
      N0: X's datagram number at the start; v0: the moment X's first keep-alive is counted from *)
-  Variables (k M tau d N0 v0 : Z).
+  Variables (k M tau d life N0 v0 : Z).
   Hypothesis HM : 0 <= M.
   Hypothesis Hd : 0 <= d.
+  Hypothesis Hlife : d <= life.
   Hypothesis Htau : 0 <= tau.
-  Hypothesis Hring : d <= (HALF - 1) * (M + 1).
+  Hypothesis Hring : life <= (HALF - 1) * (M + 1).
 
   (* sx, lkx: X's sequence counter and last-packet time; bfy, lry: Y's receive window and liveness
      clock; w: the wire X -> Y; clk: the clock; tickx: X's latest update() *)
@@ -491,7 +497,7 @@ Section Direction.
     assert (0 <= (wd_n w - n) * (M + 1)) by (apply Z.mul_nonneg_nonneg; lia). lia.
   Qed.
 
-  Lemma count_bound a : a * (M + 1) <= d -> a <= HALF - 1.
+  Lemma count_bound a : a * (M + 1) <= life -> a <= HALF - 1.
   Proof.
     intros H. assert (H' : a * (M + 1) <= (HALF - 1) * (M + 1)) by lia.
     apply Z.mul_le_mono_pos_r in H'; lia.
@@ -505,7 +511,7 @@ Section Direction.
 
   (* Y is offered s at time now; (bfy', lry') is what Conn.recv makes of it (rx_post) *)
   Lemma dir_recv sx lkx bfy lry w clk tickx now s bfy' lry' :
-    dir_inv sx lkx bfy lry w clk tickx -> clk <= now -> on_time w d now -> src_ok (Some k) w d now s ->
+    dir_inv sx lkx bfy lry w clk tickx -> clk <= now -> on_time w d now -> src_ok (Some k) w life now s ->
     match rx_of w s with
     | RxDgram dg _ =>
         match open_dgram (Some k) dg, bf_insert bfy (h_seq (d_hdr dg)) with
@@ -518,7 +524,7 @@ Section Direction.
   Proof.
     intros I Hn Ho Hs Hp. destruct s as [|i|dg orcs]; cbn [rx_of wd_present src_ok] in *.
     - destruct Hp as [-> ->]. eapply dir_time; eassumption.
-    - destruct Hs as (t & dg & Hl & Hlife). rewrite Hl in Hp.
+    - destruct Hs as (t & dg & Hl & Hlf). rewrite Hl in Hp.
       pose proof (wd_lookup_in _ _ _ _ Hl) as Hin.
       pose proof I as I0. destruct I.
       destruct (di_log0 _ _ _ Hin) as (Hi & Hka & Hsq & Hsp).
@@ -611,7 +617,7 @@ Section Pair.
 
   Lemma tinv_init : tinv (tnet0 cli0 srv0 t0).
   Proof.
-    destruct Hest as (Ec & Es & Scs & Ssc & Hcs & Hsc). destruct Hpar as (_ & Htau & MC & MS & _).
+    destruct Hest as (Ec & Es & Scs & Ssc & Hcs & Hsc). destruct Hpar as (_ & _ & Htau & MC & MS & _).
     constructor; cbn [tnet0 t_cli t_srv t_swept t_cs t_sc t_clk t_tickC t_tickS].
     - apply idle_ep_ok. exact Ec.
     - apply idle_ep_ok. exact Es.
@@ -629,8 +635,8 @@ Section Pair.
 
   Lemma rx_good_of w s sx lkx bfy lry clk tickx M N0 v0 key :
     dir_inv k M (tp_tau P) N0 v0 sx lkx bfy lry w clk tickx -> key = Some k ->
-    src_ok key w (tp_d P) (clk) s \/ True ->
-    forall now, src_ok key w (tp_d P) now s -> rx_good k (rx_of w s).
+    src_ok key w (tp_life P) (clk) s \/ True ->
+    forall now, src_ok key w (tp_life P) now s -> rx_good k (rx_of w s).
   Proof.
     intros I -> _ now Hs. destruct s as [|i|dg orcs]; cbn [rx_of rx_good src_ok] in *; [exact Logic.I| |right; exact Hs].
     destruct Hs as (t & dg & Hl & _). rewrite Hl. left.
@@ -640,7 +646,7 @@ Section Pair.
   Lemma tinv_step n v : tinv n -> tok P n v -> tinv (tstep e P n v).
   Proof.
     intros [Ic Is Isw _ _ _ _ Ics Isc] (Hclk & HtC & HtS & HoC & HoS & Hsrc).
-    destruct Hpar as (Hd & Htau & HMC & HMS & HT & H5 & HrC & HrS).
+    destruct Hpar as (Hd & Hlife & Htau & HMC & HMS & HT & H5 & HrC & HrS).
     destruct v as [now s|now s|now]; cbn [tev_time] in *; cbn [tstep].
     - (* UdpClient.update *)
       destruct (client_tick e (t_cli n) now (rx_of (t_sc n) s)) as [c' o] eqn:E.
@@ -659,7 +665,7 @@ Section Pair.
       + apply on_time_emit; assumption.
       + apply on_time_present; assumption.
       + eapply (dir_emit _ _ _ _ _ HMC); try eassumption.
-      + rewrite (eo_key _ _ _ _ Ic) in Hsrc. eapply (dir_recv _ _ _ (tp_d P) _ _ HMS Htau HrS); try eassumption.
+      + rewrite (eo_key _ _ _ _ Ic) in Hsrc. eapply (dir_recv _ _ _ (tp_d P) (tp_life P) _ _ HMS Hlife Htau HrS); try eassumption.
         unfold rx_post in Rx. rewrite (eo_key _ _ _ _ Ic) in Rx. exact Rx.
     - (* the server loop hands a datagram to the connection *)
       rewrite Isw.
@@ -680,7 +686,7 @@ Section Pair.
         * lia.
         * apply on_time_present; assumption.
         * assumption.
-        * eapply (dir_recv _ _ _ (tp_d P) _ _ HMC Htau HrC); try eassumption. rewrite Er.
+        * eapply (dir_recv _ _ _ (tp_d P) (tp_life P) _ _ HMC Hlife Htau HrC); try eassumption. rewrite Er.
           unfold rx_post in Rx. rewrite (eo_key _ _ _ _ Is) in Rx. exact Rx.
         * rewrite Sq, Lk. eapply dir_time; eassumption.
     - (* the server loop's sweep *)
@@ -767,7 +773,7 @@ Proof.
 Qed.
 
 (* ================= the executable hypotheses imply the stated ones ================= *)
-Lemma src_okb_ok key w d now s : src_okb key w d now s = true -> src_ok key w d now s.
+Lemma src_okb_ok key w life now s : src_okb key w life now s = true -> src_ok key w life now s.
 Proof.
   destruct s as [|i|dg orcs]; cbn [src_okb src_ok]; [auto| |].
   - destruct (wd_lookup w i) as [[t dg]|]; [|discriminate]. intros H. exists t, dg. split; [reflexivity|lia].
@@ -822,6 +828,6 @@ Qed.
 
 Lemma params_okb_ok P cli srv : params_okb P cli srv = true -> params_ok P cli srv.
 Proof.
-  unfold params_okb, params_ok. rewrite !andb_true_iff. intros [[[[[[[A B] C] D] E] F] G] H].
+  unfold params_okb, params_ok. rewrite !andb_true_iff. intros [[[[[[[[A A'] B] C] D] E] F] G] H].
   repeat split; lia.
 Qed.
